@@ -106,6 +106,7 @@ structure St where
   delivered : List (List Rec) := []      -- groups handed to `ReassemblyComplete`, in order
   handed    : List AEvent := []          -- events handed to the correlator, in order
   cbErrs    : List PErr := []            -- every error the callback produced, in order
+  trHist    : List Tr.Op := []           -- every operation the correlator was asked to perform, in order
   forced    : Bool := false              -- an incomplete event was evicted (overflow / expiry)
 
 /-- the non-blocking send into the one-slot error channel (dropped when the slot is taken) -/
@@ -120,7 +121,8 @@ def callback (after : Time) (st : St) (g : List Rec) : St :=
   | some ev =>
     if ev.ts < after then st else
     let r := Tr.audit st.tr ev st.clock
-    let st := { st with tr := r.1, clock := st.clock + 1, handed := st.handed ++ [ev] }
+    let st := { st with tr := r.1, clock := st.clock + 1, handed := st.handed ++ [ev],
+                        trHist := st.trHist ++ [.audit ev st.clock] }
     match r.2 with
     | none => st
     | some e => noteErr st (.cb e)
@@ -158,10 +160,11 @@ def stepIn (c : Cfg) (st : St) : In → St × Option PErr
   | .empty => (st, none)
   | .login l =>
     let (tr', err) := Tr.remoteLogin st.tr l
-    ({ st with tr := tr' }, err.map .login)
+    ({ st with tr := tr', trHist := st.trHist ++ [.remoteLogin l] }, err.map .login)
   | .tick t =>
     let tr1 := (Tr.step st.tr (.cleanSessions t)).1
-    ({ st with tr := (Tr.step tr1 (.cleanLogins t)).1 }, none)
+    ({ st with tr := (Tr.step tr1 (.cleanLogins t)).1,
+               trHist := st.trHist ++ [.cleanSessions t, .cleanLogins t] }, none)
   | .expire =>
     let (fl, out, forced) := cleanUp c.max true st.fl
     (out.foldl (callback c.after) { st with fl := fl, forced := st.forced || forced }, none)
